@@ -81,6 +81,28 @@ def drive(ctx, driver, mode="", cases=None, name=None, env=None, timeout=1500, v
     return events, res
 
 
+def agent_configs(ctx, prop, pairs=8):
+    """Configurations of the agent for `prop` enumerated by TLC from spec/AgentConfig.tla (the default and everything
+    within two neutral flags of it).  quick: the default, every single-flag deviation and a seeded sample of the
+    two-flag ones; thorough: all.  Returns the environment for the driver."""
+    import random
+    gen = tlc_generate(ctx, "AgentConfigGen", "AgentConfigGen.cfg", "agent_configs.json")
+    allc = json.load(open(gen))[prop]
+    def nd(c):
+        return sum(1 for f, v in c.items() if v not in ("off", "default"))
+    allc.sort(key=lambda c: (nd(c), json.dumps(c, sort_keys=True)))
+    chosen = [c for c in allc if nd(c) <= 1]
+    two = [c for c in allc if nd(c) == 2]
+    if ctx.tier == "thorough":
+        chosen += two
+    else:
+        chosen += random.Random(ctx.seed * 7919 + 11).sample(two, min(pairs, len(two)))
+    path = os.path.join(ctx.scratch, "agent_configs_%s.json" % prop)
+    json.dump(chosen, open(path, "w"))
+    ctx.extra["agent_configurations"] = {"enumerated_by_tlc": len(allc), "run": len(chosen)}
+    return {"VERIF_AGENT_CONFIGS": path}
+
+
 def build_relay_bins(ctx, race=False):
     go_build_repo(ctx, "./server", "proxy")
     go_build_repo(ctx, "./agent", "agent")
@@ -317,7 +339,7 @@ def c04(ctx):
     ctx.extra["histories_replayed"] = len(cases["histories"])
     build_relay_bins(ctx)
     go_build_harness(ctx)
-    events, _ = drive(ctx, "dedup", cases=cpath, timeout=3000)
+    events, _ = drive(ctx, "dedup", cases=cpath, timeout=3000, env=agent_configs(ctx, "C04"))
     segs = split_segments(project(events, NOISE))
     info = [s for s in segs if s[0].get("sig") == "dedup-window-1001"]
     segs = [s for s in segs if s[0].get("sig") != "dedup-window-1001"]
@@ -622,7 +644,7 @@ def c02(ctx):
     json.dump({"req": cases}, open(cpath, "w"))
     build_relay_bins(ctx)
     go_build_harness(ctx)
-    events, _ = drive(ctx, "httpreq", cases=cpath, timeout=3000)
+    events, _ = drive(ctx, "httpreq", cases=cpath, timeout=3000, env=agent_configs(ctx, "C02"))
     segs, fails = http_validate(ctx, events, "request")
     if not fails and segs:
         def drop_header(seg):
@@ -663,7 +685,7 @@ def c03(ctx):
     json.dump({"resp": cases}, open(cpath, "w"))
     build_relay_bins(ctx, race=thorough)
     go_build_harness(ctx)
-    events, _ = drive(ctx, "httpresp", cases=cpath, timeout=3000)
+    events, _ = drive(ctx, "httpresp", cases=cpath, timeout=3000, env=agent_configs(ctx, "C03"))
     segs, fails = http_validate(ctx, events, "response")
     # the same abstract responses from an HTTP/2 (h2c) backend, agent started with --force-http2
     h2cases = cases if thorough else cases[:len(must)] + cases[len(must)::3]
@@ -776,7 +798,7 @@ def c08(ctx):
     json.dump(cases, open(cpath, "w"))
     go_build_repo(ctx, "./agent", "agent")
     go_build_harness(ctx)
-    events, _ = drive(ctx, "backoff", cases=cpath, timeout=1800)
+    events, _ = drive(ctx, "backoff", cases=cpath, timeout=1800, env=agent_configs(ctx, "C08"))
     # the function-level phase emits its own aggregated events; the per-call hook events are noise there
     keep = []
     started = False
